@@ -418,6 +418,90 @@ theorem SimV.pushed0 {w w' : World} {v v' : Iov} {g : List UInt8} {toks : List B
   have := h.append hp
   rwa [Pipe.append_nil] at this
 
+/-- `encode_read` between calls of a run: never panics; the reader-side transcript is `read_n_impl`'s
+(`ReadN.readNCore`); a failed read changes nothing but the arena (whose bump pointer is back where
+`ensure_capacity` left it: `Props/C17.read_n_releases_unread` on `ReadN.readN`); a successful one returns
+the number of bytes read and acts exactly as `encode` of those bytes. -/
+theorem encodeRead_spec (p : Params) (hp : p.Valid) (i : Nat) (w : World) (e : EncW) (g : List UInt8)
+    (input : List UInt8) (acc : List Emit) (count attempts : Nat) (src : List UInt8) (script : List ReadN.Ev)
+    (hinv : RunInv p i ⟨w, e, g⟩ input acc) :
+    ∃ v w' e' ret, w.iov i = some v ∧
+      encodeRead p w i e ⟨src, script⟩ count attempts = some (w', e', ret, ReadN.readNCore ⟨src, script⟩ count attempts) ∧
+      (∀ k, (ReadN.readNCore ⟨src, script⟩ count attempts).res = .err k →
+        ret = .error k ∧ e' = e ∧ RunInv p i ⟨w', e, g⟩ input acc ∧
+        w'.iov i = some { v with arena := (ReadN.readN w.tun v.arena w.next ⟨src, script⟩ count attempts).2.1 } ∧
+        w'.flat v.slices = w.flat v.slices ∧ w'.exts = w.exts) ∧
+      (∀ got, (ReadN.readNCore ⟨src, script⟩ count attempts).res = .ok got →
+        ret = .ok got.length ∧ e'.st = (Enc.feedAll p e.st e.nid .borrow got).1 ∧
+        e'.nid = (Enc.feedAll p e.st e.nid .borrow got).2.1 ∧
+        RunInv p i ⟨w', e', g⟩ (input ++ got) (acc ++ (Enc.feedAll p e.st e.nid .borrow got).2.2)) := by
+  obtain ⟨v, q, evs, hv, hsim, hq, hev, hrel⟩ := hinv
+  simp only at hv hsim hrel
+  obtain ⟨w1, ar', res, hrn, hv1, hex1, hpush, _, herr, hokr⟩ :=
+    World.readN_spec w i v ⟨src, script⟩ count attempts hv hsim.inv
+  have hro := readOwn_eq w i v ⟨src, script⟩ count attempts hv w1 ar' res _ hrn hv1
+  have har : ar' = (ReadN.readN w.tun v.arena w.next ⟨src, script⟩ count attempts).2.1 := by
+    rw [← (World.readN_arena w v.arena ⟨src, script⟩ count attempts).1, hrn]
+  have hsim1 : SimV (w1.setIov i (some { v with arena := ar' })) { v with arena := ar' } g e.toks q :=
+    hsim.pushed0 hpush
+  have hv2 : (w1.setIov i (some { v with arena := ar' })).iov i = some { v with arena := ar' } := by simp
+  cases hres : (ReadN.readNCore ⟨src, script⟩ count attempts).res with
+  | err k =>
+    have hre := herr k hres
+    subst hre
+    refine ⟨v, w1.setIov i (some { v with arena := ar' }), e, .error k, hv, ?_, ?_, ?_⟩
+    · simp only [encodeRead, hro]
+    · intro k' hk'
+      cases hk'
+      refine ⟨rfl, rfl, ⟨_, q, evs, hv2, hsim1, hq, hev, hrel⟩, by rw [hv2, har], ?_, hex1⟩
+      have := hpush.flat
+      simpa using this
+    · intro got hg; cases hg
+  | ok got =>
+    obtain ⟨a, hra, hal, hab, hheld⟩ := hokr got hres
+    subst hra
+    by_cases hc0 : count = 0
+    · have hg0 : got = [] := by
+        subst hc0
+        have : ReadN.readNCore ⟨src, script⟩ 0 attempts = ⟨.ok [], [], ⟨src, script⟩⟩ := by simp [ReadN.readNCore]
+        rw [this] at hres
+        simp only [ReadN.ReadRes.ok.injEq] at hres
+        exact hres.symm
+      subst hg0
+      have hl0 : a.slice.len = 0 := by simpa using hal
+      refine ⟨v, w1.setIov i (some { v with arena := ar' }), e, .ok 0, hv, ?_, ?_, ?_⟩
+      · simp only [encodeRead, hro, encodeAnchored, hab, List.length_nil, encFeed_nil, pushAnchorOf, hl0, if_true]
+      · intro k hk; cases hk
+      · intro got' hg'
+        cases hg'
+        refine ⟨rfl, by simp [Enc.feedAll, feed_nil], by simp [Enc.feedAll, feed_nil], ?_⟩
+        simp only [List.append_nil, Enc.feedAll, feed_nil]
+        exact ⟨_, q, evs, hv2, hsim1, hq, hev, hrel⟩
+    · obtain ⟨hheld1, c, hanc, hreg⟩ := hheld (by omega)
+      obtain ⟨w3, e3, k1, k2, k3, k4⟩ := encFeed_runH p hp i got a.slice _ _ e g input acc q evs hv2 hsim1 hq hev hrel
+        hheld1 hab
+      obtain ⟨v3, q3, evs3, j1, j2, j3, j4, j5⟩ := k2
+      simp only at j1 j2 j5
+      by_cases hl0 : a.slice.len = 0
+      · refine ⟨v, w3, e3, .ok got.length, hv, ?_, ?_, ?_⟩
+        · have hg0 : got.length = 0 := by omega
+          simp only [encodeRead, hro, encodeAnchored, hab, k1, pushAnchorOf, hal]
+          simp only [hg0, if_true]
+        · intro k hk; cases hk
+        · intro got' hg'
+          cases hg'
+          exact ⟨rfl, k3, k4, ⟨v3, q3, evs3, j1, j2, j3, j4, j5⟩⟩
+      · obtain ⟨m1, m2⟩ := World.pushAnchor_spec w3 i v3 a.anchor j1 j2.inv
+        refine ⟨v, w3.setIov i (some { v3 with anchors := v3.anchors ++ [{ a.anchor with count := 0 }] }), e3,
+          .ok got.length, hv, ?_, ?_, ?_⟩
+        · have hg0 : ¬ got.length = 0 := by omega
+          simp only [encodeRead, hro, encodeAnchored, hab, k1, pushAnchorOf, hal]
+          simp only [hg0, if_false, m1]
+        · intro k hk; cases hk
+        · intro got' hg'
+          cases hg'
+          exact ⟨rfl, k3, k4, ⟨_, q3, evs3, by simp, j2.pushed0 m2, j3, j4, j5⟩⟩
+
 /-- One call of the full vocabulary keeps the run invariant. -/
 theorem encCallA_sim (p : Params) (hp : p.Valid) (i : Nat) (r : Run) (c : ACall) (input : List UInt8)
     (acc : List Emit) (hinv : RunInv p i r input acc) :
@@ -436,68 +520,29 @@ theorem encCallA_sim (p : Params) (hp : p.Valid) (i : Nat) (r : Run) (c : ACall)
       exact this
   | read count attempts src script =>
     obtain ⟨w, e, g⟩ := r
-    obtain ⟨v, q, evs, hv, hsim, hq, hev, hrel⟩ := hinv
-    simp only at hv hsim hrel
-    obtain ⟨w1, ar', res, hrn, hv1, _, hpush, _, herr, hokr⟩ :=
-      World.readN_spec w i v ⟨src, script⟩ count attempts hv hsim.inv
-    have hro := readOwn_eq w i v ⟨src, script⟩ count attempts hv w1 ar' res _ hrn hv1
-    have hsim1 : SimV (w1.setIov i (some { v with arena := ar' })) { v with arena := ar' } g e.toks q :=
-      hsim.pushed0 hpush
-    have hv2 : (w1.setIov i (some { v with arena := ar' })).iov i = some { v with arena := ar' } := by simp
+    obtain ⟨v, w', e', ret, _, h1, herr, hok⟩ := encodeRead_spec p hp i w e g input acc count attempts src script hinv
     cases hres : (ReadN.readNCore ⟨src, script⟩ count attempts).res with
     | err k =>
-      have hre := herr k hres
-      subst hre
-      refine ⟨⟨w1.setIov i (some { v with arena := ar' }), e, g⟩, acc, ?_, ?_, ?_⟩
-      · simp only [encCallA, encodeRead, hro, Option.map_some]
+      obtain ⟨_, he', h3, _⟩ := herr k hres
+      subst he'
+      refine ⟨⟨w', e', g⟩, acc, by simp only [encCallA, h1, Option.map_some], ?_, ?_⟩
       · have : ainputOf [ACall.read count attempts src script] = [] := by
           simp [ainputOf, apieces, readPiece, hres]
         rw [this, List.append_nil]
-        exact ⟨_, q, evs, hv2, hsim1, hq, hev, hrel⟩
+        exact h3
       · intro rest
         simp [apieces, readPiece, hres]
     | ok got =>
-      obtain ⟨a, hra, hal, hab, hheld⟩ := hokr got hres
-      subst hra
+      obtain ⟨_, k3, k4, h3⟩ := hok got hres
       have hin : ainputOf [ACall.read count attempts src script] = got := by
         simp [ainputOf, apieces, readPiece, hres]
       rw [hin]
-      have hgo : ∀ (e' : EncW), e'.st = (Enc.feedAll p e.st e.nid .borrow got).1 →
-          e'.nid = (Enc.feedAll p e.st e.nid .borrow got).2.1 →
-          ∀ rest, Enc.runPieces.go p (apieces (.read count attempts src script :: rest)) e.st e.nid acc =
-            Enc.runPieces.go p (apieces rest) e'.st e'.nid (acc ++ (Enc.feedAll p e.st e.nid .borrow got).2.2) := by
-        intro e' h1 h2 rest
-        rw [h1, h2]
-        simp only [apieces, readPiece, hres, List.cons_append, List.nil_append]
-        rfl
-      by_cases hc0 : count = 0
-      · -- nothing was asked for: an empty slice, nothing encoded, no anchor pushed
-        have hg0 : got = [] := by
-          subst hc0
-          have : ReadN.readNCore ⟨src, script⟩ 0 attempts = ⟨.ok [], [], ⟨src, script⟩⟩ := by simp [ReadN.readNCore]
-          rw [this] at hres
-          simp only [ReadN.ReadRes.ok.injEq] at hres
-          exact hres.symm
-        subst hg0
-        have hl0 : a.slice.len = 0 := by simpa using hal
-        refine ⟨⟨w1.setIov i (some { v with arena := ar' }), e, g⟩, acc ++ (Enc.feedAll p e.st e.nid .borrow []).2.2, ?_, ?_,
-          hgo e (by simp [Enc.feedAll, feed_nil]) (by simp [Enc.feedAll, feed_nil])⟩
-        · simp only [encCallA, encodeRead, hro, encodeAnchored, hab, List.length_nil, encFeed_nil, pushAnchorOf, hl0,
-            if_true, Option.map_some]
-        · simp only [List.append_nil, Enc.feedAll, feed_nil]
-          exact ⟨_, q, evs, hv2, hsim1, hq, hev, hrel⟩
-      · obtain ⟨hheld1, c, hanc, hreg⟩ := hheld (by omega)
-        obtain ⟨w3, e3, k1, k2, k3, k4⟩ := encFeed_runH p hp i got a.slice _ _ e g input acc q evs hv2 hsim1 hq hev hrel
-          hheld1 hab
-        obtain ⟨v3, q3, evs3, j1, j2, j3, j4, j5⟩ := k2
-        simp only at j1 j2 j5
-        by_cases hl0 : a.slice.len = 0
-        · refine ⟨⟨w3, e3, g⟩, _, ?_, ⟨v3, q3, evs3, j1, j2, j3, j4, j5⟩, hgo e3 k3 k4⟩
-          simp only [encCallA, encodeRead, hro, encodeAnchored, hab, k1, pushAnchorOf, hl0, if_true, Option.map_some]
-        · obtain ⟨m1, m2⟩ := World.pushAnchor_spec w3 i v3 a.anchor j1 j2.inv
-          refine ⟨⟨w3.setIov i (some { v3 with anchors := v3.anchors ++ [{ a.anchor with count := 0 }] }), e3, g⟩, _, ?_,
-            ⟨_, q3, evs3, by simp, j2.pushed0 m2, j3, j4, j5⟩, hgo e3 k3 k4⟩
-          simp only [encCallA, encodeRead, hro, encodeAnchored, hab, k1, pushAnchorOf, hl0, if_false, m1, Option.map_some]
+      refine ⟨⟨w', e', g⟩, _, by simp only [encCallA, h1, Option.map_some], h3, ?_⟩
+      intro rest
+      simp only [apieces, readPiece, hres, List.cons_append, List.nil_append]
+      show Enc.runPieces.go p ((Method.borrow, got) :: apieces rest) e.st e.nid acc = _
+      rw [k3, k4]
+      rfl
 
 theorem ainputOf_cons (c : ACall) (t : List ACall) : ainputOf (c :: t) = ainputOf [c] ++ ainputOf t := by
   cases c <;> simp [ainputOf, apieces]
